@@ -1,0 +1,176 @@
+//go:build verif
+
+// Machine-checked contracts (read by /verif/bin/fsv; comment-only, guarded by the verif tag).
+// C03: the breaker follows its three-state machine; C04: admission; C16: state-change events.
+
+package circuitbreaker
+
+// ---------------------------------------------------------------------------------------------
+// Assumed contract of the bit set dependency: an array of booleans.
+//@ ghost field (*github.com/bits-and-blooms/bitset.BitSet).bits map[int]bool
+//@ extfunc github.com/bits-and-blooms/bitset.(*BitSet).Test
+//@   requires b != nil
+//@   ensures result == b.bits[i]
+//@   modifies nothing
+//@ extfunc github.com/bits-and-blooms/bitset.(*BitSet).SetTo
+//@   requires b != nil
+//@   ensures b.bits == upd(old(b.bits), i, value) && result == b
+//@   modifies b.bits
+//@ extfunc github.com/bits-and-blooms/bitset.(*BitSet).ClearAll
+//@   requires b != nil
+//@   ensures (forall p int :: !b.bits[p]) && result == b
+//@   modifies b.bits
+//@ extfunc github.com/bits-and-blooms/bitset.New
+//@   ensures result != nil && fresh(result) && (forall p int :: !result.bits[p])
+//@   modifies nothing
+
+// ---------------------------------------------------------------------------------------------
+// countingStats: the ring holds exactly the last min(m, size) recorded results.
+// Ghost history: m results recorded so far, hist[j] the j-th of them; cnt = number of successes among the first j.
+//@ ghost field (*countingStats).m int
+//@ ghost field (*countingStats).hist map[int]bool
+//@ ghost field (*countingStats).q int
+//@ pure rec func cnt(h map[int]bool, j int) int = ite(j <= 0, 0, cnt(h, j-1) + b2i(h[j-1]))
+
+//@ lemma [C03.cnt.mono] forall h map[int]bool, a int, b int :: a <= b ==> cnt(h, a) <= cnt(h, b)
+//@   by induction b from a
+//@ lemma [C03.cnt.lipschitz] forall h map[int]bool, a int, b int :: a <= b ==> cnt(h, b) - cnt(h, a) <= b - a
+//@   by induction b from a
+//@ lemma [C03.cnt.frame] forall h map[int]bool, i int, v bool, j int :: 0 <= j && j <= i ==> cnt(upd(h, i, v), j) == cnt(h, j)
+//@   by induction j from 0
+
+//@ macro ringBasic(c) = c != nil && c.bitSet != nil && c.size >= 1 && c.size <= 1073741824 && c.head < c.size && c.m >= 0 && c.q >= 0 && c.m == c.q*c.size + c.head && c.occupiedBits == min(c.m, c.size) && c.successes + c.failures == c.occupiedBits
+//@ macro ringCount(c) = c.successes == cnt(c.hist, c.m) - cnt(c.hist, c.m - c.occupiedBits)
+//@ macro ringLow(c) = forall p int :: 0 <= p && p < c.head ==> c.bitSet.bits[p] == c.hist[c.m - c.head + p]
+//@ macro ringHigh(c) = forall p int :: c.head <= p && p < c.size && c.q >= 1 ==> c.bitSet.bits[p] == c.hist[c.m - c.head - c.size + p]
+//@ macro ringInv(c) = ringBasic(c) && ringCount(c) && ringLow(c) && ringHigh(c)
+
+//@ func (*countingStats).setNext
+//@   requires ringInv(c)
+//@   use C03.cnt.mono(c.hist, c.m - c.size + 1, c.m)
+//@   use C03.cnt.lipschitz(c.hist, c.m - c.size + 1, c.m)
+//@   onwrite head: c.hist := upd(c.hist, c.m, value); c.m := c.m + 1; c.q := ite(c.head == 0, c.q + 1, c.q)
+//@   use C03.cnt.frame(old(c.hist), old(c.m), value, old(c.m))
+//@   use C03.cnt.frame(old(c.hist), old(c.m), value, old(c.m) - c.size)
+//@   use C03.cnt.frame(old(c.hist), old(c.m), value, old(c.m) - c.size + 1)
+//@   ensures [C03.ring.view.basic] ringBasic(c)
+//@   ensures [C03.ring.view.count] ringCount(c)
+//@   ensures [C03.ring.view.low] ringLow(c)
+//@   ensures [C03.ring.view.high] ringHigh(c)
+//@   ensures [C03.ring.history] c.m == old(c.m) + 1 && c.hist == upd(old(c.hist), old(c.m), value)
+//@   ensures [C03.ring.evicted] result == ite(old(c.occupiedBits) < c.size, -1, b2i(old(c.hist)[old(c.m) - c.size]))
+//@   modifies c.head, c.occupiedBits, c.successes, c.failures, c.bitSet.bits, c.m, c.hist, c.q
+
+//@ func newCountingStats
+//@   requires size >= 1 && size <= 1073741824
+//@   assume result.m == 0 && result.q == 0
+//@   ensures [C03.ring.new] fresh(result) && ringInv(result) && result.size == size && result.m == 0 && result.occupiedBits == 0
+//@   modifies nothing
+
+//@ func (*countingStats).recordSuccess
+//@   requires ringInv(c)
+//@   ensures [C03.ring.record_success] ringInv(c) && c.m == old(c.m) + 1 && c.hist == upd(old(c.hist), old(c.m), true)
+//@   modifies c.head, c.occupiedBits, c.successes, c.failures, c.bitSet.bits, c.m, c.hist, c.q
+//@ func (*countingStats).recordFailure
+//@   requires ringInv(c)
+//@   ensures [C03.ring.record_failure] ringInv(c) && c.m == old(c.m) + 1 && c.hist == upd(old(c.hist), old(c.m), false)
+//@   modifies c.head, c.occupiedBits, c.successes, c.failures, c.bitSet.bits, c.m, c.hist, c.q
+
+// Metrics: counts over the last min(m, size) results; rates are percentages in [0,100], within half a point of the ratio.
+//@ func (*countingStats).executionCount
+//@   requires c != nil
+//@   ensures [C03.metrics.count] result == c.occupiedBits
+//@   modifies nothing
+//@ func (*countingStats).failureCount
+//@   requires c != nil
+//@   ensures [C03.metrics.failures] result == c.failures
+//@   modifies nothing
+//@ func (*countingStats).successCount
+//@   requires c != nil
+//@   ensures [C03.metrics.successes] result == c.successes
+//@   modifies nothing
+//@ func (*countingStats).failureRate
+//@   requires c != nil && c.failures <= c.occupiedBits && c.occupiedBits <= 1073741824
+//@   ensures [C03.rate.failure.zero] c.occupiedBits == 0 ==> result == 0
+//@   ensures [C03.rate.failure.range] result <= 100
+//@   ensures [C03.rate.failure.value] c.occupiedBits > 0 ==> real(result) * real(c.occupiedBits) <= 100.0 * real(c.failures) + 0.51 * real(c.occupiedBits) && real(result) * real(c.occupiedBits) >= 100.0 * real(c.failures) - 0.51 * real(c.occupiedBits)
+//@   ensures [C03.rate.failure.extremes] c.occupiedBits > 0 ==> (c.failures == 0 ==> result == 0) && (c.failures == c.occupiedBits ==> result == 100)
+//@   modifies nothing
+//@ func (*countingStats).successRate
+//@   requires c != nil && c.successes <= c.occupiedBits && c.occupiedBits <= 1073741824
+//@   ensures [C03.rate.success.zero] c.occupiedBits == 0 ==> result == 0
+//@   ensures [C03.rate.success.range] result <= 100
+//@   ensures [C03.rate.success.value] c.occupiedBits > 0 ==> real(result) * real(c.occupiedBits) <= 100.0 * real(c.successes) + 0.51 * real(c.occupiedBits) && real(result) * real(c.occupiedBits) >= 100.0 * real(c.successes) - 0.51 * real(c.occupiedBits)
+//@   modifies nothing
+
+//@ func (*countingStats).reset
+//@   requires c != nil && c.bitSet != nil && c.size >= 1 && c.size <= 1073741824
+//@   ensures [C03.ring.reset] c.head == 0 && c.occupiedBits == 0 && c.successes == 0 && c.failures == 0 && (forall p int :: !c.bitSet.bits[p])
+//@   modifies c.head, c.occupiedBits, c.successes, c.failures, c.bitSet.bits
+
+// ---------------------------------------------------------------------------------------------
+// timedStats: ten slices of one tenth of the thresholding period; the summary is the sum of the slices.
+//@ extfunc github.com/failsafe-go/failsafe-go/internal/util.Clock.CurrentUnixNano
+//@   modifies nothing
+//@   ensures result >= 0 && result <= 4611686018427387904
+//@ macro sumS(s) = s.buckets[0].successes + s.buckets[1].successes + s.buckets[2].successes + s.buckets[3].successes + s.buckets[4].successes + s.buckets[5].successes + s.buckets[6].successes + s.buckets[7].successes + s.buckets[8].successes + s.buckets[9].successes
+//@ macro sumF(s) = s.buckets[0].failures + s.buckets[1].failures + s.buckets[2].failures + s.buckets[3].failures + s.buckets[4].failures + s.buckets[5].failures + s.buckets[6].failures + s.buckets[7].failures + s.buckets[8].failures + s.buckets[9].failures
+//@ macro timedInv(s) = s != nil && s.clock != nil && s.bucketCount == 10 && len(s.buckets) == 10 && s.bucketNanos >= 1 && s.head >= 0 && s.head <= 4611686018427387904 && s.summary.successes == sumS(s) && s.summary.failures == sumF(s)
+//@ macro timedSmall(s) = s.summary.successes <= 1099511627776 && s.summary.failures <= 1099511627776
+// slot k (0..9) is cleared when the head moves from h0 by d slices (d capped at 10): slots h0+1 .. h0+d (mod 10)
+//@ macro cleared(k, h0, d) = emod(k - h0 - 1, 10) < d
+
+//@ func (*timedStats).currentBucket
+//@   inline
+//@   requires timedInv(s) && timedSmall(s)
+//@   ext now := ret(s.clock.CurrentUnixNano, 1)
+//@   oldlet h0 := s.head
+//@   oldlet nh := ediv(now, s.bucketNanos)
+//@   loop 0 invariant 0 <= i && i <= bucketsToMove && s.head == h0 && s.bucketCount == 10 && len(s.buckets) == 10 && s.bucketNanos == old(s.bucketNanos) && s.buckets == old(s.buckets) && s.clock == old(s.clock)
+//@   loop 0 invariant s.summary.successes == sumS(s) && s.summary.failures == sumF(s) && s.summary.successes <= 1099511627776 && s.summary.failures <= 1099511627776
+//@   loop 0 invariant [C03.window.rotation.inv] forall k int :: 0 <= k && k < 10 ==> (cleared(k, h0, i) ==> s.buckets[k].successes == 0 && s.buckets[k].failures == 0) && (!cleared(k, h0, i) ==> s.buckets[k].successes == old(s.buckets[k].successes) && s.buckets[k].failures == old(s.buckets[k].failures))
+//@   loop 0 decreases bucketsToMove - i
+//@   let d := ite(nh > h0, min(10, nh - h0), 0)
+//@   ensures [C03.timed.inv] timedInv(s)
+//@   ensures [C03.window.head] s.head == max(h0, nh)
+//@   ensures [C03.window.rotation] forall k int :: 0 <= k && k < 10 ==> (cleared(k, h0, d) ==> s.buckets[k].successes == 0 && s.buckets[k].failures == 0) && (!cleared(k, h0, d) ==> s.buckets[k].successes == old(s.buckets[k].successes) && s.buckets[k].failures == old(s.buckets[k].failures))
+//@   ensures [C03.window.current] result.successes == s.buckets[emod(s.head, 10)].successes && result.failures == s.buckets[emod(s.head, 10)].failures
+//@   modifies s.head, s.summary, elems(s.buckets), calls(s.clock.CurrentUnixNano)
+
+// which results count: a result recorded at instant t sits in slice t/bn; it is still counted at 'now' iff now/bn - t/bn <= 9
+//@ lemma [C03.window.never_older_than_period] forall now int, t int, bn int :: bn >= 1 && t >= 0 && now - t >= 10*bn ==> ediv(now, bn) - ediv(t, bn) >= 10
+//@ lemma [C03.window.recent_nine_tenths] forall now int, t int, bn int :: bn >= 1 && t >= 0 && now >= t && now - t < 9*bn ==> ediv(now, bn) - ediv(t, bn) <= 9
+
+//@ func (*timedStats).recordSuccess
+//@   requires timedInv(s) && timedSmall(s)
+//@   ext now := ret(s.clock.CurrentUnixNano, 1)
+//@   ensures [C03.timed.record_success] timedInv(s) && s.summary.successes == sumS(s) && s.head == max(old(s.head), ediv(now, s.bucketNanos))
+//@   modifies s.head, s.summary, elems(s.buckets), calls(s.clock.CurrentUnixNano)
+//@ func (*timedStats).recordFailure
+//@   requires timedInv(s) && timedSmall(s)
+//@   ext now := ret(s.clock.CurrentUnixNano, 1)
+//@   ensures [C03.timed.record_failure] timedInv(s) && s.head == max(old(s.head), ediv(now, s.bucketNanos))
+//@   modifies s.head, s.summary, elems(s.buckets), calls(s.clock.CurrentUnixNano)
+
+//@ func (*timedStats).executionCount
+//@   requires s != nil && s.summary.successes <= 1099511627776 && s.summary.failures <= 1099511627776
+//@   ensures [C03.timed.count] result == s.summary.successes + s.summary.failures
+//@   modifies nothing
+//@ func (*timedStats).failureCount
+//@   requires s != nil
+//@   ensures [C03.timed.failures] result == s.summary.failures
+//@   modifies nothing
+//@ func (*timedStats).successCount
+//@   requires s != nil
+//@   ensures [C03.timed.successes] result == s.summary.successes
+//@   modifies nothing
+//@ func (*timedStats).failureRate
+//@   requires s != nil && s.summary.successes <= 1099511627776 && s.summary.failures <= 1099511627776
+//@   let n := s.summary.successes + s.summary.failures
+//@   ensures [C03.timed.rate.failure] (n == 0 ==> result == 0) && result <= 100 && (n > 0 ==> real(result) * real(n) <= 100.0 * real(s.summary.failures) + 0.51 * real(n) && real(result) * real(n) >= 100.0 * real(s.summary.failures) - 0.51 * real(n))
+//@   modifies nothing
+//@ func (*timedStats).successRate
+//@   requires s != nil && s.summary.successes <= 1099511627776 && s.summary.failures <= 1099511627776
+//@   let n := s.summary.successes + s.summary.failures
+//@   ensures [C03.timed.rate.success] (n == 0 ==> result == 0) && result <= 100 && (n > 0 ==> real(result) * real(n) <= 100.0 * real(s.summary.successes) + 0.51 * real(n) && real(result) * real(n) >= 100.0 * real(s.summary.successes) - 0.51 * real(n))
+//@   modifies nothing
